@@ -26,7 +26,10 @@ SumSq(a, w)  == SumSeq([x \in DOMAIN a |-> w[x] * a[x] * a[x]])
 Ones(n)      == [x \in 1..n |-> 1]
 MaxSeq(s)    == CHOOSE v \in RangeOf(s) : \A u \in RangeOf(s) : v >= u
 
-Close(resq, num, den, q, tol) == Abs(resq * den - num * q) <= tol * den     \* den > 0
+(* den > 0.  A logged result so large that resq * den leaves TLC's 32-bit integers cannot be close to an expected value that *)
+(* was computed without overflow: it is rejected instead of making the evaluation fail.                                  *)
+Close(resq, num, den, q, tol) ==
+    IF Abs(resq) > 2147483647 \div den THEN FALSE ELSE Abs(resq * den - num * q) <= tol * den
 
 (* ---- C06 ---- *)
 MeanOK(r, S, resq, qe, tol)        == Close(resq, Sum(r), S * Len(r), Q(qe), tol)
@@ -65,9 +68,9 @@ CovOK(ri, rj, S, d, resq, qe, tol) ==
 PearsonOK(ri, rj, rq, qe, tol) ==
     LET nii == CovNum(ri, ri)  njj == CovNum(rj, rj)  nij == CovNum(ri, rj)  q == Q(qe) IN
     /\ nii > 0 /\ njj > 0
+    /\ Abs(rq) <= q + tol                                                                 \* first: bounds the products below
     /\ Abs(rq * rq * (nii * njj) - nij * nij * q * q) <= (2 * Abs(rq) + 1) * tol * (nii * njj)
     /\ (nij > 0 => rq >= 0) /\ (nij < 0 => rq <= 0)
-    /\ Abs(rq) <= q + tol
 
 (* ---- C09 ---- *)
 Diff(a, b)   == [x \in DOMAIN a |-> a[x] - b[x]]
